@@ -182,8 +182,18 @@ fn check_missing(src: &mut Src, doc: &J, obs: &mut Obs) -> Res {
         let node = doc.get_loc(&base).unwrap_or(doc);
         let mut l = base.clone();
         let label;
+        // a path that is not the spelling of any `Loc` (negative index below the start of the array)
+        let mut path_text: Option<String> = None;
         match node {
-            J::Arr(a) => match src.below(4) {
+            J::Arr(a) => match src.below(5) {
+                4 => {
+                    // counted from the end the index still falls outside: no reading of the path gives
+                    // it a location
+                    let i = -(a.len() as i64) - 1 - src.below(3) as i64;
+                    path_text = Some(format!("{}[{}]", normalized_path(&base), i));
+                    l.push(Step::Idx(usize::MAX));
+                    label = "negative-index-below-start";
+                }
                 0 => {
                     l.push(Step::Idx(a.len()));
                     label = "index=len";
@@ -249,7 +259,7 @@ fn check_missing(src: &mut Src, doc: &J, obs: &mut Obs) -> Res {
         if doc.get_loc(&l).is_some() {
             continue;
         }
-        let path = normalized_path(&l);
+        let path = path_text.unwrap_or_else(|| normalized_path(&l));
         obs.label(label);
         obs.eval(2);
         obs.nontrivial(&(path.as_str(), doc.text()), || json!({"doc": doc.to_value(), "missing_path": path, "kind": label}));
